@@ -88,9 +88,17 @@ def top_alternatives(pattern, flags):
 
 def check_escapes(repo, rep):
     mod = repo.module(LEX)
+    de, subs = escape_substitutions(repo)
+    if not subs:
+        rep.ob('R16a', de.key + '/per-escape-substitution', False,
+               'decode_escapes no longer rewrites the literal with '
+               '<ESCAPE_RE>.sub(<callback>, s): escapes must be decoded one '
+               'matched escape sequence at a time; decoding the whole '
+               'literal corrupts every non-ASCII character and re-reads '
+               'decoded text', loc=mod.loc(de.node))
+        return
     pat, flags, node = escape_regex(repo)
     # R16a: decode per matched escape, in ONE pass over the caller's text
-    de, subs = escape_substitutions(repo)
     param = de.params()[0]
     g = cfgmod.CFG(de.node)
     single = len(subs) == 1
